@@ -437,7 +437,10 @@ func (e *FuncEnc) checkInvariants(b, h *ssa.BasicBlock, li *loopInfo, back bool)
 	if back {
 		kind = "step"
 	}
-	for _, nf := range e.loopInvariantFormulas(li, bind, e.cur) {
+	e.invAsGoal = true
+	invs := e.loopInvariantFormulas(li, bind, e.cur)
+	e.invAsGoal = false
+	for _, nf := range invs {
 		e.obligeNamed(fmt.Sprintf("loop%d/%s", e.loopOrd[h], nf.Name), kind, nf.Formula, h.Instrs[0].Pos())
 		e.Obls[len(e.Obls)-1].Props = nf.Props
 	}
